@@ -286,7 +286,9 @@ type MonLog struct {
 	BeforeSave func(host string, uds []pb.Update) // runs before the real SaveRaftState
 	AfterSave  func(host string, uds []pb.Update)
 	SaveDelay  func() time.Duration
+	OnSaveSnapshots func(host string, before bool)
 	saveCalls  int64
+	frozen     int32 // power is off: saves that still return are not durable
 }
 
 func NewMonLog(host string) *MonLog {
@@ -318,7 +320,20 @@ func (m *MonLog) View(shard, replica uint64, f func(d *Durable)) {
 	f(m.node(nodeKey{shard, replica}))
 }
 
+// Freeze stops the shadow from growing (the host lost power; whatever the dying
+// process still "saves" is not durable). Unfreeze at restart.
+func (m *MonLog) Freeze(on bool) {
+	if on {
+		atomic.StoreInt32(&m.frozen, 1)
+	} else {
+		atomic.StoreInt32(&m.frozen, 0)
+	}
+}
+
 func (m *MonLog) record(uds []pb.Update) {
+	if atomic.LoadInt32(&m.frozen) == 1 {
+		return
+	}
 	m.mu.Lock()
 	defer m.mu.Unlock()
 	for _, ud := range uds {
@@ -408,9 +423,15 @@ func (d *monDB) SaveRaftState(uds []pb.Update, shardID uint64) error {
 }
 
 func (d *monDB) SaveSnapshots(uds []pb.Update) error {
+	if f := d.mon.OnSaveSnapshots; f != nil {
+		f(d.mon.host, true)
+	}
 	err := d.ILogDB.SaveSnapshots(uds)
 	if err == nil {
 		d.mon.record(uds)
+		if f := d.mon.OnSaveSnapshots; f != nil {
+			f(d.mon.host, false)
+		}
 	}
 	return err
 }
@@ -436,6 +457,8 @@ type Host struct {
 	Up      bool
 	Inc     int
 	cluster *Cluster
+	// SysListener, when set, receives the NodeHost's system events
+	SysListener raftio.ISystemEventListener
 }
 
 type ClusterOptions struct {
@@ -478,7 +501,8 @@ func (h *Host) config() config.NodeHostConfig {
 		NodeHostDir:    h.Dir,
 		RTTMillisecond: h.cluster.Opts.RTTms,
 		RaftAddress:    h.Addr,
-		NotifyCommit:   h.cluster.Opts.NotifyCommit,
+		NotifyCommit:        h.cluster.Opts.NotifyCommit,
+		SystemEventListener: h.SysListener,
 		Expert: config.ExpertConfig{
 			FS:               h.FS,
 			LogDBFactory:     &monFactory{inner: inner, mon: h.Mon},
@@ -509,6 +533,53 @@ func (h *Host) Start() error {
 	return nil
 }
 
+// newNodeHostIsolated creates the NodeHost of a host without touching its
+// network state (the caller keeps it cut off).
+func newNodeHostIsolated(h *Host) (*dragonboat.NodeHost, error) {
+	return dragonboat.NewNodeHost(h.config())
+}
+
+// NormalizeNames repairs an artefact of lni/vfs MemFS after ResetToSyncedState: a
+// node whose rename was rolled back keeps reporting the *new* base name from
+// Stat().Name() although it is listed under the old name again. A real file
+// system derives the name from the directory entry; code that builds paths from
+// FileInfo.Name() (snapshotter.processOrphans) would otherwise be blamed for a
+// test file system bug. The fix renames such an entry away and back.
+func NormalizeNames(fs *gvfs.MemFS, root string) {
+	var walk func(dir string)
+	walk = func(dir string) {
+		names, err := fs.List(dir)
+		if err != nil {
+			return
+		}
+		changed := false
+		for _, n := range names {
+			p := fs.PathJoin(dir, n)
+			fi, err := fs.Stat(p)
+			if err != nil {
+				continue
+			}
+			if fi.Name() != n {
+				tmp := p + ".vfnorm"
+				if err := fs.Rename(p, tmp); err == nil {
+					_ = fs.Rename(tmp, p)
+					changed = true
+				}
+			}
+			if fi.IsDir() {
+				walk(p)
+			}
+		}
+		if changed {
+			if d, err := fs.OpenDir(dir); err == nil {
+				_ = d.Sync()
+				_ = d.Close()
+			}
+		}
+	}
+	walk(root)
+}
+
 // Stop closes the NodeHost gracefully.
 func (h *Host) Stop() {
 	if !h.Up {
@@ -527,10 +598,13 @@ func (h *Host) PowerCut() {
 		return
 	}
 	h.cluster.Net.SetDead(h.Addr, true)
+	h.Mon.Freeze(true)
 	h.FS.SetIgnoreSyncs(true)
 	h.NH.Close()
 	h.FS.ResetToSyncedState()
 	h.FS.SetIgnoreSyncs(false)
+	NormalizeNames(h.FS, "/")
+	h.Mon.Freeze(false)
 	h.Up = false
 }
 
